@@ -258,7 +258,7 @@ func (ls *List) Map(ctx context.Context, fn Object) Object {
 			outputValue, err = callFunc(ctx, compiledFunc, mapArgs)
 		}
 		if err != nil {
-			return Errorf(err.Error())
+			return NewError(err)
 		}
 		if IsError(outputValue) {
 			return outputValue
@@ -285,7 +285,7 @@ func (ls *List) Filter(ctx context.Context, fn Object) Object {
 		filterArgs[0] = value
 		decision, err := callFunc(ctx, fn.(*Function), filterArgs)
 		if err != nil {
-			return Errorf(err.Error())
+			return NewError(err)
 		}
 		if IsError(decision) {
 			return decision
@@ -313,7 +313,7 @@ func (ls *List) Each(ctx context.Context, fn Object) Object {
 		eachArgs[0] = value
 		result, err := callFunc(ctx, fn.(*Function), eachArgs)
 		if err != nil {
-			return Errorf(err.Error())
+			return NewError(err)
 		}
 		if IsError(result) {
 			return result
@@ -391,7 +391,7 @@ func (ls *List) Insert(index int64, obj Object) {
 func (ls *List) Pop(index int64) Object {
 	idx, err := ResolveIndex(index, int64(len(ls.items)))
 	if err != nil {
-		return Errorf(err.Error())
+		return NewError(err)
 	}
 	result := ls.items[idx]
 	ls.items = append(ls.items[:idx], ls.items[idx+1:]...)
@@ -497,7 +497,7 @@ func (ls *List) GetItem(key Object) (Object, *Error) {
 	}
 	idx, err := ResolveIndex(indexObj.value, int64(len(ls.items)))
 	if err != nil {
-		return nil, Errorf(err.Error())
+		return nil, NewError(err)
 	}
 	return ls.items[idx], nil
 }
@@ -506,7 +506,7 @@ func (ls *List) GetItem(key Object) (Object, *Error) {
 func (ls *List) GetSlice(s Slice) (Object, *Error) {
 	start, stop, err := ResolveIntSlice(s, int64(len(ls.items)))
 	if err != nil {
-		return nil, Errorf(err.Error())
+		return nil, NewError(err)
 	}
 	items := ls.items[start:stop]
 	itemsCopy := make([]Object, len(items))
@@ -522,7 +522,7 @@ func (ls *List) SetItem(key, value Object) *Error {
 	}
 	idx, err := ResolveIndex(indexObj.value, int64(len(ls.items)))
 	if err != nil {
-		return Errorf(err.Error())
+		return NewError(err)
 	}
 	ls.items[idx] = value
 	return nil
@@ -536,7 +536,7 @@ func (ls *List) DelItem(key Object) *Error {
 	}
 	idx, err := ResolveIndex(indexObj.value, int64(len(ls.items)))
 	if err != nil {
-		return Errorf(err.Error())
+		return NewError(err)
 	}
 	ls.items = append(ls.items[:idx], ls.items[idx+1:]...)
 	return nil
